@@ -11,7 +11,7 @@ import check as CK
 from coqterm import *
 from props.c14 import STRS, IPS, SIZES, BAD_IPS, _impl
 
-TRANSLATORS = ["enums", "codec"]
+TRANSLATORS = ["enums", "codec", "defender", "dispatch"]
 COQ_FILES = ["Props/C15.v", "Obl/CodecDescOk.v", "Obl/EnumsOk.v"]
 
 
@@ -159,6 +159,13 @@ def session_monitor(ctx, gc, rng, n_sessions):
 
 
 def correspondence(ctx):
+    # multi-agent sessions on the real coordinator (joins, actions, collective resets, faults): every response - CREATED,
+    # OK, FORBIDDEN, RESET_DONE - must carry the view the coordinator holds for THAT agent (monitor tagged C15 in coordcommon)
+    from props import coordcommon as CC
+    CC.run_sessions(ctx, "C15", 60 if ctx.tier == "thorough" else 24,
+                    lambda r: dict(n_events=r.choice([40, 70]), burst=0.2, fault=0.03, bad=0.03, resets=0.3),
+                    lambda r: dict(required=r.choice([2, 2, 3]), max_steps=r.choice([1, 2, 3])))
+    sess_cov = {k: ctx.coverage.get(k) for k in ("sessions", "labels_followed", "response_and_barrier_statistics")}
     gc = _impl()
     rng = random.Random(ctx.seed)
     thorough = ctx.tier == "thorough"
@@ -237,6 +244,8 @@ def correspondence(ctx):
             if i < len(chunk):
                 disagreements += 1
                 ctx.broken.append(f"correspondence Model/ViewCodec.v vs game_components.py ({chunk[i][0]}): {chunk[i][2][:300]}")
+    ctx.coverage = {k: v for k, v in ctx.coverage.items() if k in ('coqchk',)}
+    ctx.coverage['coordinator_sessions'] = sess_cov
     ctx.coverage.update({
         "evaluations": len(cases) + responses,
         "distinct_nontrivial": len({c[1] for c in cases}),
